@@ -1025,6 +1025,15 @@ def str_method(ex, st, fi, o, name, args, kw, line):
                 st.assume(Implies(zint(src_l.length()) == 0, res.ln == 0))
         yield st, res
     elif name == 'replace':
+        a, b = lift_str(args[0]), lift_str(args[1])
+        if isinstance(a.ln, int) and a.ln == 1 and isinstance(b.ln, int) \
+                and b.ln == 1:
+            # character-wise replacement: same length, mapped characters
+            ca, cb = a.at(0), b.at(0)
+            yield st, SSeq(sym.lam(lambda k: z3.If(s.at(k) == zint(ca),
+                                                   zint(cb), s.at(k))),
+                           s.ln, 'str')
+            return
         res = fresh_seq('str', 'replace', st.assume)
         yield st, res
     elif name == 'encode':
